@@ -34,11 +34,12 @@ def mutant(pid: str, name: str, file: str, old: str, new: str, expect, count: in
     MUTANTS.append(dict(pid=pid, name=name, edits=[(file, old, new, count)] + list(extra or []), expect=expect, note=note))
 
 
-# The collector rules of C05 were first shape rules S1 (children coverage), S2 (dispatch), S3 (refusals), S6 (homomorphism), S7 (factor use); they
+# The collector rules of C05 and C06 were first shape rules S1 (children coverage), S2 (dispatch), S3 (refusals), S6 (homomorphism), S7 (factor use); they
 # are now ONE evaluation of the collector on expression trees that reports S1 (wrong value or dimension) or S3 (wrong refusal / acceptance). A mutant
 # written for an old rule id must be reported by the evaluation; which of the two ids it gets depends on the trees it breaks.
 REMAP = {
     "C05": {"S1": ("S1", "S3"), "S2": ("S1", "S3"), "S3": ("S1", "S3"), "S6": ("S1", "S3"), "S7": ("S1", "S3"), "S4": ("S3", "S4")},
+    "C06": {"S1": ("S1", "S3"), "S2": ("S1", "S3"), "S3": ("S1", "S3"), "S6": ("S1", "S3"), "S7": ("S1", "S3")},
 }
 
 
